@@ -174,6 +174,36 @@ def expect_region(gs, s):
     return None if any(r is None for r in rs) else False
 
 
+def check_case_moved(g, s, a, res, tag):
+    """the goal region is moved with translate_rotate (as a scenario / planning problem is), the state is the moved state: reaching is invariant"""
+    import numpy as np
+    case = {"k": "is_reached-after-move", "goals": [g], "state": s, "angle": a, "tag": tag}
+    exp = expect_region([g], s)
+    res.evals += 1; res.transitions += 1
+    try:
+        goal = mk_goal([g])
+        goal.translate_rotate(np.array([2.0, -1.0]), a)
+        o2 = float(s["ori"]) + a
+        while o2 > TWO_PI:
+            o2 -= TWO_PI
+        while o2 < -TWO_PI:
+            o2 += TWO_PI
+        c_, s_ = math.cos(a), math.sin(a)
+        x, y = s["pos"][0] + 2.0, s["pos"][1] - 1.0
+        st = mk_state(dict(s, ori=o2, pos=(c_ * x - s_ * y, s_ * x + c_ * y), types={}))
+        got = goal.is_reached(st)
+    except Exception as e:
+        res.violation(f"C08|{s['cls']}|orientation|{lenclass(g.get('ori'))}|after-translate_rotate|raises:{type(e).__name__}", f"goal {g} state {s} a={a}: {e!r}", case)
+        return
+    if exp is None:
+        res.guarded += 1
+        return
+    res.nontrivial += 1
+    if bool(got) != exp:
+        res.violation(f"C08|{s['cls']}|orientation|{lenclass(g.get('ori'))}|after-translate_rotate|{'wrong-accept' if got else 'wrong-reject'}",
+                      f"goal {g} moved by a={a}, state orientation {s['ori']} + a: is_reached={got}, expected {exp}", case)
+
+
 def lenclass(iv):
     if iv is None:
         return "-"
@@ -467,6 +497,10 @@ def run_unit(unit, tier):
                         continue
                     s = dict(s0, cls=cls, ori=v, types={"ori": t})
                     check_case([g], s, res, "orientation:" + others)
+                    if others == "none" and cls == "KSState" and t == "float" and iv[1] - iv[0] < TWO_PI - 0.5:
+                        for a in (0.1, 3.0, -2.0):
+                            if -TWO_PI <= iv[0] + a - TWO_PI or iv[1] + a + TWO_PI <= TWO_PI or (-TWO_PI <= iv[0] + a and iv[1] + a <= TWO_PI):
+                                check_case_moved(g, s, a, res, "orientation:after-move")
         res.states += 1
         res.sample({"k": "ori", "interval": iv}, 1)
     elif k == "pos":
